@@ -24,6 +24,62 @@ MOD = "algorithms.bond_orders"
 MATRICES = ("AC", "BO", "best_BO", "con_mat", "BO_matrix")
 
 
+def matrix_locals(fn: ast.FunctionDef) -> set[str]:
+    """Names of fn that hold a connectivity / bond-order matrix: parameters
+    annotated as N x N arrays (or carrying one of the conventional names) and
+    locals obtained from them by copying or from _get_BO(...)."""
+    mats: set[str] = set()
+    a = fn.args
+    for arg in a.posonlyargs + a.args + a.kwonlyargs:
+        ann = norm(arg.annotation) if arg.annotation is not None else ""
+        if "tuple[N, N]" in ann or arg.arg in MATRICES:
+            mats.add(arg.arg)
+
+    def is_matrix_value(v) -> bool:
+        if isinstance(v, ast.Name):
+            return v.id in mats
+        if isinstance(v, ast.Call):
+            cn = call_name(v) or ""
+            if cn == "_get_BO":
+                return True
+            if isinstance(v.func, ast.Attribute) and v.func.attr == "copy" \
+                    and not v.args:
+                return is_matrix_value(v.func.value)
+            if cn in ("copy.copy", "copy.deepcopy", "np.array", "np.copy",
+                      "numpy.array") and v.args:
+                return is_matrix_value(v.args[0]) or (
+                    cn.endswith("array") and "connectivity" in norm(v.args[0]))
+        return False
+
+    for _ in range(4):
+        for n in ast.walk(fn):
+            if isinstance(n, ast.Assign) and len(n.targets) == 1:
+                t = n.targets[0]
+                if isinstance(t, ast.Name) and is_matrix_value(n.value):
+                    mats.add(t.id)
+                elif isinstance(t, ast.Tuple) and t.elts and isinstance(
+                        t.elts[0], ast.Name) and isinstance(
+                        n.value, ast.Call) and call_name(n.value) == "_AC2BO":
+                    mats.add(t.elts[0].id)
+    return mats
+
+
+def _from_ua_pairs(fn: ast.FunctionDef, it: ast.AST) -> bool:
+    """The iterable is the UA_pairs parameter (5th positional of _get_BO) or
+    a local assigned from _get_UA_pairs(...)."""
+    if not isinstance(it, ast.Name):
+        return False
+    a = fn.args
+    params = [x.arg for x in a.posonlyargs + a.args]
+    if fn.name == "_get_BO" and len(params) >= 5 and it.id == params[4]:
+        return True
+    for n in ast.walk(fn):
+        if isinstance(n, ast.Assign) and len(n.targets) == 1 and norm(
+                n.targets[0]) == it.id and "_get_UA_pairs(" in norm(n.value):
+            return True
+    return False
+
+
 def run(prog: Program, res: Result, tier: str) -> None:
     res.rule("R-BO-WRITES", "in bond_orders.py a matrix element is only "
              "written by the adjacent symmetric pair `M[i, j] += 1; M[j, i] "
@@ -38,6 +94,7 @@ def run(prog: Program, res: Result, tier: str) -> None:
     mod = prog.module(MOD)
     n_pairs = 0
     for fn in [n for n in mod.tree.body if isinstance(n, ast.FunctionDef)]:
+        MATS = matrix_locals(fn) | set(MATRICES)
         stores = []
         for node in ast.walk(fn):
             tgt = None
@@ -49,7 +106,7 @@ def run(prog: Program, res: Result, tier: str) -> None:
                         tgt = t
             if isinstance(tgt, ast.Subscript) and isinstance(
                     tgt.value, ast.Name) and (
-                    tgt.value.id in MATRICES or isinstance(tgt.slice, ast.Tuple)):
+                    tgt.value.id in MATS or isinstance(tgt.slice, ast.Tuple)):
                 # element store into a 2-d array
                 if isinstance(tgt.slice, ast.Tuple) and len(tgt.slice.elts) == 2:
                     stores.append(node)
@@ -66,10 +123,12 @@ def run(prog: Program, res: Result, tier: str) -> None:
                 partner = f"{m}[{j}, {i}] += 1"
                 sib = [norm(b) for b in body]
                 loop = parent(st)
+                pairs_ok = isinstance(loop, ast.For) and (
+                    norm(loop.iter) == "UA_pairs" or _from_ua_pairs(
+                        fn, loop.iter))
                 if partner in sib and abs(sib.index(partner) - idx) == 1 and \
                         isinstance(loop, ast.For) and norm(loop.target) in (
-                        f"({i}, {j})", f"({j}, {i})") and norm(loop.iter) == \
-                        "UA_pairs" and i != j:
+                        f"({i}, {j})", f"({j}, {i})") and pairs_ok and i != j:
                     ok = True
                     n_pairs += 1
             if ok:
@@ -82,11 +141,13 @@ def run(prog: Program, res: Result, tier: str) -> None:
         # matrix creations / rebinding
         for node in ast.walk(fn):
             if isinstance(node, ast.Assign) and isinstance(
-                    node.targets[0], ast.Name) and node.targets[0].id in (
-                    "BO", "best_BO"):
+                    node.targets[0], ast.Name) and (node.targets[0].id in (
+                    "BO", "best_BO") or (node.targets[0].id in MATS
+                                         and fn.name in ("_AC2BO", "_get_BO"))):
                 v = norm(node.value)
                 inst = f"{fn.name}: {norm(node)}"
-                if v in ("AC.copy()", "BO.copy()", "best_BO.copy()") or \
+                m_copy = re.fullmatch(r"(\w+)\.copy\(\)", v)
+                if (m_copy and m_copy.group(1) in MATS) or \
                         v.startswith("_get_BO("):
                     res.ok("R-BO-WRITES", inst, mod.loc(node))
                 else:
@@ -96,15 +157,15 @@ def run(prog: Program, res: Result, tier: str) -> None:
             if isinstance(node, ast.Call) and isinstance(
                     node.func, ast.Attribute) and isinstance(
                     node.func.value, ast.Name) and node.func.value.id in \
-                    MATRICES and node.func.attr in ("fill", "itemset", "put",
+                    MATS and node.func.attr in ("fill", "itemset", "put",
                                                     "sort", "resize"):
                 res.bad("R-BO-WRITES", f"{fn.name}: {norm(node)}",
                         mod.loc(node), f"{fn.name}: in-place `{norm(node)}`")
     res.need("R-BO-WRITES", n_pairs // 1, 2, "symmetric increments")
     # returns of _AC2BO / _get_BO ---------------------------------------------
-    for fname, allowed in (("_AC2BO", {"AC", "BO", "best_BO"}),
-                           ("_get_BO", {"BO"})):
+    for fname in ("_AC2BO", "_get_BO"):
         fi = prog.fn(f"{MOD}:{fname}")
+        allowed = matrix_locals(fi.node)
         for r in ast.walk(fi.node):
             if isinstance(r, ast.Return) and r.value is not None:
                 v = r.value.elts[0] if isinstance(r.value, ast.Tuple) else r.value
@@ -113,8 +174,9 @@ def run(prog: Program, res: Result, tier: str) -> None:
                     res.ok("R-BO-WRITES", inst, fi.loc(r))
                 else:
                     res.bad("R-BO-WRITES", inst, fi.loc(r),
-                            f"{fname} returns `{norm(v)}`, not one of "
-                            f"{sorted(allowed)}")
+                            f"{fname} returns `{norm(v)}`, which is not the "
+                            "connectivity matrix or a bond-order matrix "
+                            f"derived from it ({sorted(allowed)})")
     top = prog.fn(f"{MOD}:connectivity2bond_orders")
     t = utext(top.node)
     inst = "connectivity2bond_orders: integer copy of the input, result of _AC2BO returned"
